@@ -4,7 +4,7 @@
 From Coq Require Import List NArith Lia Bool ZifyN ZifyNat ZifyBool.
 From FS Require Import Sx Model.Path Model.Fs Model.RootPath Model.CopyFs Model.CopyFsSpec
   Proofs.Lex Proofs.PathP Proofs.FsP Proofs.RootPathStrP Proofs.FsCopyFrameP Proofs.FsCopyInvP
-  Proofs.FsCopySafeP Proofs.FsCopyLinksP Proofs.FsCopySysP Proofs.CopyFsP Proofs.CopyRecP.
+  Proofs.FsCopySafeP Proofs.FsCopyLinksP Proofs.FsCopySysP Proofs.CopyFsP Proofs.CopyFsNrP Proofs.CopyRecP.
 Import ListNotations.
 Open Scope N_scope.
 Open Scope bool_scope.
@@ -35,16 +35,48 @@ Section Rec2.
     (lok s -> lok s') -> FsCopyLinksP.keeps_new dr (f_next f0) (s_fs s) (s_fs s') -> stays_ok d s s' r.
   Proof. intros C0 A0 L0 K0. split; auto. Qed.
 
+  Section Reads.
+    Variable R : N -> Prop.
+    Variables SP SPN : bytes -> Prop.
+    Hypothesis HA : forall f p i, Ctx f -> SP p -> resolve_ino c f p false = inl i -> R i.
+    Hypothesis HB : forall f p i n, Ctx f -> SP p -> resolve_ino c f p false = inl i -> get f i = Some n ->
+      kind_is_link n = false -> SPN p.
+    Hypothesis HC : forall f p j, Ctx f -> SPN p -> resolve_ino c f p true = inl j -> R j.
+    Hypothesis HD : forall f p j pp es n, Ctx f -> SPN p -> resolve_ino c f p true = inl j ->
+      dir_of f j = Some (pp, es) -> In n (map fst es) -> SP (join2 p n).
+    Hypothesis HN : forall p, SPN p -> SP p.
+    Notation rok := (CopyRecP.rok R).
+    Notation pok := (CopyRecP.pok SPN).
+
+  Lemma readdir_children f src names : Ctx f -> SPN src -> snd (sys_readdir c f src) = RNames names ->
+    Forall (fun n => SP (join2 src n)) names.
+  Proof.
+    intros C Hs H. unfold sys_readdir in H. destruct (resolve_ino c f src true) as [j|e] eqn:Er; [|discriminate].
+    destruct (dir_of f j) as [[pp es]|] eqn:Ed; [|discriminate]. cbn [snd] in H. injection H as <-.
+    apply Forall_forall. intros n Hn. eapply HD; eauto.
+  Qed.
+
+  (* the directory read that follows the listing *)
+  Lemma log_dir_reads ff src sX : Ctx ff -> SPN src ->
+    exists sY, (match resolve_ino c ff src true with inl di => log_read di | inr _ => ret tt end) sX = (sY, inl tt)
+               /\ s_fs sY = s_fs sX /\ s_links sY = s_links sX /\ s_parents sY = s_parents sX /\ (rok sX -> rok sY).
+  Proof.
+    intros C Hs. destruct (resolve_ino c ff src true) as [di|e] eqn:Er; [rewrite log_read_run|cbn [ret]];
+      eexists; (split; [reflexivity|]); (split; [reflexivity|]); (split; [reflexivity|]); (split; [reflexivity|]); auto.
+    intros Rk. eapply rok_cons; [reflexivity| |exact Rk]. eapply HC; eauto.
+  Qed.
+
   (* the included, non-directory kinds and the tail of the directory case share this *)
-  Lemma copy_rec_spec fuel : forall o sl src comps cs d pend x ow pinc pexc s s' r,
+  Lemma copy_rec_spec_r fuel : forall o sl src comps cs d pend x ow pinc pexc s s' r,
     Ctx (s_fs s) -> chain (s_fs s) dr cs d ->
     Forall nm cs -> Forall nonul cs -> Forall nm pend -> Forall nonul pend -> nm x -> nonul x ->
     uncopied (s_parents s) = pend_paths cs pend -> lok s ->
+    SP src -> pok (s_parents s) -> rok s ->
     copy_rec fuel c o sl src comps (render (dcs ++ cs ++ pend ++ [x])) ow pinc pexc s = (s', r) ->
-    stays_ok d s s' r /\ (ok_res r -> stack_post cs pend s s').
+    (stays_ok d s s' r /\ (ok_res r -> stack_post cs pend s s')) /\ rok s'.
   Proof.
-    induction fuel as [|k IH]; intros o sl src comps cs d pend x ow pinc pexc s s' r C Hc Hcs Hcn Hp Hpn Hx Hxn Hu L H.
-    { cbn [copy_rec] in H. unfold fail in H. injection H as <- <-. split; [apply stays_stays_ok, stays_refl; auto|].
+    induction fuel as [|k IH]; intros o sl src comps cs d pend x ow pinc pexc s s' r C Hc Hcs Hcn Hp Hpn Hx Hxn Hu L Hsp Hpk Rk H.
+    { cbn [copy_rec] in H. unfold fail in H. injection H as <- <-. split; [|exact Rk]. split; [apply stays_stays_ok, stays_refl; auto|].
       intros [a Ha]; discriminate. }
     cbn [copy_rec] in H. rewrite bind_run, sys_run in H. cbn [fst snd] in H. rewrite sys_lstat_fs in H.
     pose proof (cx_dcs _ _ _ _ _ C) as Hdn.
@@ -52,19 +84,25 @@ Section Rec2.
     assert (Hsame : forall s1 (r1 : unit + N), s_fs s1 = s_fs s -> s_links s1 = s_links s -> s_parents s1 = s_parents s ->
               stays_ok d s s1 r1 /\ (ok_res r1 -> stack_post cs pend s s1)).
     { intros s1 r1 E1 E2 E3. split; [apply stays_stays_ok; apply stays_same; auto|]. intros _. left. exact E3. }
-    destruct (snd (sys_lstat c (s_fs s) src)) as [|e|ino fi| | |];
-      try (unfold fail in H; injection H as <- <-; apply Hsame; reflexivity).
+    destruct (snd (sys_lstat c (s_fs s) src)) as [|e|ino fi| | |] eqn:El;
+      try (unfold fail in H; injection H as <- <-; split; [apply Hsame; reflexivity|exact Rk]).
+    destruct (sys_lstat_ino c _ _ _ _ El) as [Elr Elg].
+    assert (Hspn : kind_is_link fi = false -> SPN src) by (intros Hk; eapply HB; eauto).
     rewrite bind_run, log_read_run in H. cbn [s_fs s_links s_parents s_reads] in H.
     set (s1 := {| s_fs := s_fs s; s_links := s_links s; s_parents := s_parents s; s_reads := ino :: s_reads s |}) in *.
+    assert (Rk1 : rok s1) by (eapply rok_cons; [reflexivity| |exact Rk]; eapply HA; eauto).
     rewrite bind_run in H.
     set (target := render (dcs ++ cs ++ pend ++ [x])) in *.
     destruct (lstat_opt_nd c target s1) as [s2 [tfi|e]] eqn:E2.
-    2:{ injection H as <- <-. destruct (lstat_opt_nd_pure c _ _ _ _ E2) as (F2 & L2 & P2). apply Hsame; auto. }
+    2:{ injection H as <- <-. destruct (lstat_opt_nd_pure c _ _ _ _ E2) as (F2 & L2 & P2).
+        split; [apply Hsame; auto|]. eapply rok_nr; [apply NR_lstat_opt_nd|exact E2|exact Rk1]. }
+    assert (Rk2 : rok s2) by (eapply rok_nr; [apply NR_lstat_opt_nd|exact E2|exact Rk1]).
     destruct (lstat_opt_nd_pure c _ _ _ _ E2) as (F2 & L2 & P2). cbn [s_fs s_links s_parents s1] in F2, L2, P2.
     assert (C2 : Ctx (s_fs s2)) by (rewrite F2; auto).
     assert (Lk2 : lok s2) by (unfold CopyFsP.lok; rewrite F2, L2; exact L).
     assert (Hc2 : chain (s_fs s2) dr cs d) by (rewrite F2; auto).
     assert (S02 : stays d s s2) by (apply stays_same; auto).
+    assert (Hpk2 : pok (s_parents s2)) by (rewrite P2; exact Hpk).
     cbv zeta in H.
     set (ri := if is_nil comps then (true, []) else sl_inc sl comps pinc) in H.
     set (re := if is_nil comps then (false, []) else sl_exc sl comps pexc) in H.
@@ -78,11 +116,14 @@ Section Rec2.
       assert (Hu2 : uncopied (s_parents s2) = pend_paths cs pend) by (rewrite P2; exact Hu).
       destruct (create_parent_dirs c o ow s2) as [s3 [[]|e]] eqn:E3.
       2:{ injection H as <- <-.
-          destruct (create_parent_dirs_spec c f0 dr dcs o ow cs d pend s2 s3 _ C2 Hc2 Hcs Hcn Hp Hpn Hu2 E3) as (S3 & _).
+          destruct (create_parent_dirs_spec_r c f0 dr dcs R SP SPN HA HC HN o ow cs d pend s2 s3 _ C2 Hc2 Hcs Hcn Hp Hpn Hu2 E3) as ((S3 & _) & Rd3).
+          split; [|apply Rd3; auto].
           split; [eapply stays_ok_pre; [exact Hd|exact S02|exact S3]|intros [a Ha]; discriminate]. }
-      destruct (create_parent_dirs_spec c f0 dr dcs o ow cs d pend s2 s3 _ C2 Hc2 Hcs Hcn Hp Hpn Hu2 E3) as (S3 & Lk3 & EL3 & P3).
+      destruct (create_parent_dirs_spec_r c f0 dr dcs R SP SPN HA HC HN o ow cs d pend s2 s3 _ C2 Hc2 Hcs Hcn Hp Hpn Hu2 E3) as ((S3 & Lk3 & EL3 & P3) & Rd3).
+      assert (Rk3 : rok s3) by (apply Rd3; auto).
       destruct (P3 eq_refl) as (Pa3 & d2 & Hc3).
       assert (C3 : Ctx (s_fs s3)) by apply S3.
+      assert (Hpk3 : pok (s_parents s3)) by (rewrite Pa3; apply pok_allc; exact Hpk2).
       assert (Lok3 : lok s3) by auto.
       set (cs2 := cs ++ pend) in *.
       assert (Etgt : target = tpath cs2 x).
@@ -115,7 +156,9 @@ Section Rec2.
         apply G. cbn [s_links s1]. rewrite <- L2. exact He. }
       destruct (prep_rest c o (tpath cs2 x) fi tfi s3) as [s4 [[]|e]] eqn:E4.
       2:{ injection H as <- <-. destruct (prep_rest_spec c f0 dr dcs s3 s4 _ cs2 d2 x o fi tfi T3 Hforg E4) as (S4 & Pa4 & _).
+          split; [|eapply rok_nr; [apply NR_prep_rest|exact E4|exact Rk3]].
           apply Hfrom3; [apply stays_stays_ok; exact S4|intros [a Ha]; discriminate]. }
+      assert (Rk4 : rok s4) by (eapply rok_nr; [apply NR_prep_rest|exact E4|exact Rk3]).
       destruct (prep_rest_spec c f0 dr dcs s3 s4 _ cs2 d2 x o fi tfi T3 Hforg E4) as (S4 & Pa4 & P4).
       assert (T4 : Tgt (s_fs s4) cs2 d2 x) by (eapply tgt_stays; eauto).
       assert (Lok4 : lok s4) by (apply S4; auto).
@@ -125,14 +168,15 @@ Section Rec2.
                 stays_ok d s s9 r9 /\ (ok_res r9 -> stack_post cs pend s s9)).
       { intros s9 r9 S9 P9. apply Hfrom3; [eapply stays_ok_pre; eauto|]. intros Hr. rewrite (P9 Hr). exact Pa4. }
       (* the common tail: finish_meta after a creation step *)
-      assert (Hfin : forall s5 i, stays d2 s4 s5 ->
+      assert (Hfin : forall s5 i, stays d2 s4 s5 -> rok s5 ->
                 names_ss (s_fs s5) d2 x i -> (kind_is_link fi = false -> FsP.is_link (s_fs s5) i = false) ->
                 forall s6 r6, finish_meta c o fi src (tpath cs2 x) s5 = (s6, r6) ->
-                stays_ok d s s6 r6 /\ (ok_res r6 -> stack_post cs pend s s6)).
-      { intros s5 i S5 Hn Hl s6 r6 H6.
+                (stays_ok d s s6 r6 /\ (ok_res r6 -> stack_post cs pend s s6)) /\ rok s6).
+      { intros s5 i S5 Rk5 Hn Hl s6 r6 H6.
         assert (T5 : Tgt (s_fs s5) cs2 d2 x) by (eapply tgt_stays; eauto).
         pose proof (finish_meta_spec c f0 dr dcs s5 s6 r6 cs2 d2 x i o fi src T5 Hn Hl H6) as M6.
         assert (S56 : stays d2 s5 s6) by (apply mstep_stays; exact M6).
+        split; [|eapply (finish_meta_reads c f0 dr dcs R SP HA s5 s6 r6 cs2 d2 x i o fi src); eauto].
         apply Hfrom4; [apply stays_stays_ok; eapply stays_trans; eauto|].
         intros _. rewrite (stays_parents _ _ _ S56). apply (stays_parents _ _ _ S5). }
       destruct (i_kind fi) as [pp es|data|t|typ rdev] eqn:Ek.
@@ -140,7 +184,10 @@ Section Rec2.
         rewrite bind_run in H.
         destruct (copy_directory_only c (tpath cs2 x) fi ow s4) as [s5 [created|e]] eqn:E5.
         2:{ injection H as <- <-. destruct (copy_directory_only_spec c f0 dr dcs s4 s5 _ cs2 d2 x fi ow T4 E5) as (S5 & _).
+            split; [|eapply rok_nr; [apply NR_copy_directory_only|exact E5|exact Rk4]].
             apply Hfrom4; [apply stays_stays_ok; exact S5|intros [a Ha]; discriminate]. }
+        assert (Rk5 : rok s5) by (eapply rok_nr; [apply NR_copy_directory_only|exact E5|exact Rk4]).
+        assert (Hsn : SPN src) by (apply Hspn; unfold kind_is_link; rewrite Ek; reflexivity).
         destruct (copy_directory_only_spec c f0 dr dcs s4 s5 _ cs2 d2 x fi ow T4 E5) as (S5 & EL5 & P5).
         destruct (P5 created eq_refl) as (d1 & Hb1 & Hd1).
         assert (T5 : Tgt (s_fs s5) cs2 d2 x) by (eapply tgt_stays; eauto).
@@ -156,16 +203,14 @@ Section Rec2.
                   stays_ok d s s9 r9 /\ (ok_res r9 -> stack_post cs pend s s9)).
         { intros s9 r9 S9 P9. apply Hfrom4; [eapply stays_ok_pre; eauto|]. intros Hr. rewrite (P9 Hr). apply (stays_parents _ _ _ S5). }
         destruct (snd (sys_readdir c (s_fs s6) src)) as [|e|i0 n0|b0|names|i0] eqn:Er;
-          try (unfold fail in H; injection H as <- <-; apply Hout; [apply stays_ok_setp; apply T5|intros [a Ha]; discriminate]).
+          try (unfold fail in H; injection H as <- <-; split; [|exact Rk5]; apply Hout; [apply stays_ok_setp; apply T5|intros [a Ha]; discriminate]).
         pose proof (readdir_names c f0 dr (s_fs s6) src names (tgt_inv _ _ _ _ _ _ _ _ T5) Er) as Hnames.
+        pose proof (readdir_children (s_fs s6) src names (tg_ctx _ _ _ _ _ _ _ _ T5) Hsn Er) as Hkids.
         rewrite bind_run in H. unfold get_fs at 1 in H. rewrite bind_run in H.
-        assert (Hlog : forall ff sX, exists sY, (match resolve_ino c ff src true with inl di => log_read di | inr _ => ret tt end) sX = (sY, inl tt)
-                              /\ s_fs sY = s_fs sX /\ s_links sY = s_links sX /\ s_parents sY = s_parents sX).
-        { intros ff sX. destruct (resolve_ino c ff src true); [rewrite log_read_run|cbn [ret]];
-            eexists; (split; [reflexivity|repeat split; reflexivity]). }
         match type of H with context [(match resolve_ino c ?ff src true with inl di => log_read di | inr _ => ret tt end) ?sX] =>
-          destruct (Hlog ff sX) as (s7 & E7 & F7 & EL7 & Pa7); rewrite E7 in H end.
+          destruct (log_dir_reads ff src sX (tg_ctx _ _ _ _ _ _ _ _ T5) Hsn) as (s7 & E7 & F7 & EL7 & Pa7 & Rd7); rewrite E7 in H end.
         cbn [s_fs s_links s_parents s6 setp] in F7, EL7, Pa7.
+        assert (Rk7 : rok s7) by (apply Rd7; exact Rk5).
         assert (Hc7 : chain (s_fs s7) dr (cs2 ++ [x]) d1) by (rewrite F7; eapply chain_snoc; eauto; apply T5).
         assert (Hq7 : chain (s_fs s7) d2 [x] d1) by (rewrite F7; econstructor; eauto; constructor; auto).
         assert (S57 : stays d2 s5 s7 -> True) by auto. clear S57.
@@ -174,34 +219,42 @@ Section Rec2.
         set (I := fun s0 : cst => Ctx (s_fs s0) /\ chain (s_fs s0) dr (cs2 ++ [x]) d1 /\ s_parents s0 = Pst).
         assert (HI : forall s0, I s0 -> Ctx (s_fs s0) /\ is_dir (s_fs s0) d1 = true).
         { intros s0 (C0 & Hc0 & _). split; auto. eapply chain_end_dir; eauto. }
-        assert (Hg : forall n sa sb rb, okn n -> I sa -> lok sa ->
+        assert (HpkP : pok Pst).
+        { unfold Pst. apply pok_app. split; [rewrite (stays_parents _ _ _ S5), Pa4; exact Hpk3|]. constructor; [exact Hsn|constructor]. }
+        set (PK := fun n : bytes => okn n /\ SP (join2 src n)).
+        assert (Hg : forall n sa sb rb, PK n -> I sa -> lok sa -> rok sa ->
                   copy_rec k c o sl (join2 src n) (join2 comps n) (join2 (tpath cs2 x) n) true (snd ri) (snd re) sa = (sb, rb) ->
-                  stays_ok d1 sa sb rb /\ (ok_res rb -> I sb)).
-        { intros n sa sb rb Hn (Ca & Hca & Pa) La Ha.
+                  stays_ok d1 sa sb rb /\ (ok_res rb -> I sb) /\ rok sb).
+        { intros n sa sb rb [Hn Hspk] (Ca & Hca & Pa) La Rka Ha.
           rewrite <- Etgt in Ha. rewrite (Hj n Hn) in Ha.
           replace (dcs ++ cs ++ pend ++ [x] ++ [n]) with (dcs ++ (cs2 ++ [x]) ++ [] ++ [n]) in Ha
             by (unfold cs2; rewrite <- !app_assoc; reflexivity).
-          destruct (IH o sl (join2 src n) (join2 comps n) (cs2 ++ [x]) d1 [] n true (snd ri) (snd re) sa sb rb Ca Hca) as (Sb & Pb); auto;
+          destruct (IH o sl (join2 src n) (join2 comps n) (cs2 ++ [x]) d1 [] n true (snd ri) (snd re) sa sb rb Ca Hca) as ((Sb & Pb) & Rkb); auto;
             try (apply Forall_app; split; auto); try apply Hn.
           { rewrite Pa. exact HPst. }
-          split; auto. intros Hr. destruct Sb as (Cb & Ab & _).
+          { rewrite Pa. exact HpkP. }
+          split; auto. split; [|exact Rkb]. intros Hr. destruct Sb as (Cb & Ab & _).
           split; auto. split; [apply (Ab dr (cs2 ++ [x]) d1 []); auto; constructor; eapply chain_end_dir; eauto|].
           destruct (Pb Hr) as [Eq|[Eq _]]; rewrite Eq, Pa; auto. apply allc_id. exact HPst. }
         assert (I7 : I s7) by (split; [rewrite F7; apply T5|split; [exact Hc7|rewrite Pa7; reflexivity]]).
         assert (L7 : lok s7) by (unfold CopyFsP.lok; rewrite F7, EL7; exact Lok5).
         assert (S57 : stays_ok d2 s5 s7 (@inl unit N tt)).
         { split; [rewrite F7; apply T5|]. split; [rewrite F7; apply above_refl|]. split; [intros _ _; exact L7|rewrite F7; apply keeps_new_refl]. }
+        assert (HPK : Forall PK (sorted_names names)).
+        { apply sorted_names_forall. apply Forall_forall. intros n Hn. rewrite Forall_forall in Hnames, Hkids. split; auto. }
         destruct (each_m (fun n => copy_rec k c o sl (join2 src n) (join2 comps n) (join2 (tpath cs2 x) n) true (snd ri) (snd re)) (sorted_names names) s7)
           as [s8 [[]|e]] eqn:E8.
         2:{ injection H as <- <-.
-            destruct (each_m_inv c f0 dr dcs I _ d1 HI Hg _ (sorted_names_forall _ _ Hnames) s7 s8 _ I7 L7 E8) as (S8 & _).
+            destruct (each_m_inv_r c f0 dr dcs R PK I _ d1 HI Hg _ HPK s7 s8 _ I7 L7 Rk7 E8) as (S8 & _ & Rk8).
+            split; [|exact Rk8].
             apply Hout; [|intros [a Ha]; discriminate].
             eapply (stays_ok_seq c f0 dr dcs d2 s5 s7 s8 tt); [eapply tgt_dir; eauto|exact S57|].
             eapply stays_ok_below; [exact Hq7|exact S8]. }
-        destruct (each_m_inv c f0 dr dcs I _ d1 HI Hg _ (sorted_names_forall _ _ Hnames) s7 s8 _ I7 L7 E8) as (S8 & I8).
+        destruct (each_m_inv_r c f0 dr dcs R PK I _ d1 HI Hg _ HPK s7 s8 _ I7 L7 Rk7 E8) as (S8 & I8 & Rk8).
         destruct (I8 (ex_intro _ tt eq_refl)) as (C8 & Hc8 & Pa8).
         rewrite bind_run, pop_parent_run in H. rewrite Pa8 in H. unfold Pst in H. rewrite removelast_last in H.
         set (s9 := setp s8 (s_parents s5)) in H.
+        assert (Rk9 : rok s9) by exact Rk8.
         assert (S59 : stays_ok d2 s5 s9 (@inl unit N tt)).
         { eapply (stays_ok_seq c f0 dr dcs d2 s5 s7 s9 tt); [eapply tgt_dir; eauto|exact S57|].
           eapply (stays_ok_seq c f0 dr dcs d2 s7 s8 s9 tt); [rewrite F7; eapply tgt_dir; eauto|eapply stays_ok_below; [exact Hq7|exact S8]|].
@@ -222,9 +275,10 @@ Section Rec2.
           -- destruct (copy_file_timestamp c o fi (tpath cs2 x) s9) as [s10 r10] eqn:E10.
              pose proof (copy_file_timestamp_spec c f0 dr dcs s9 s10 r10 cs2 d2 x d1 o fi T9 Hn9 E10) as M10.
              injection H as <- <-. assert (S910 : stays d2 s9 s10) by (apply mstep_stays; exact M10).
+             split; [|eapply rok_nr; [apply NR_copy_file_timestamp|exact E10|exact Rk9]].
              apply Hfrom4; [apply stays_stays_ok; eapply stays_trans; eauto|].
              intros _. rewrite (stays_parents _ _ _ S910). apply (stays_parents _ _ _ S49).
-          -- cbn [ret] in H. injection H as <- <-.
+          -- cbn [ret] in H. injection H as <- <-. split; [|exact Rk9].
              apply Hfrom4; [apply stays_stays_ok; exact S49|]. intros _. apply (stays_parents _ _ _ S49).
       + (* regular file *)
         assert (Hkd : kind_is_dir fi = false) by (unfold kind_is_dir; rewrite Ek; reflexivity).
@@ -233,17 +287,19 @@ Section Rec2.
         rewrite bind_run in H.
         destruct (copy_regular c src (tpath cs2 x) ino s4) as [s5 [[]|e]] eqn:E5.
         * destruct (copy_regular_spec c f0 dr dcs s4 s5 _ cs2 d2 x src ino T4 Hab Lok4 E5) as (S5 & Pa5 & P5).
+          assert (Rk5 : rok s5) by (eapply (copy_regular_reads c f0 dr dcs R SPN HC); [apply T4|apply Hspn; exact Hkl|exact E5|exact Rk4]).
           destruct (P5 eq_refl) as (i & Hn & _ & Hl).
           assert (S5' : stays d2 s4 s5).
           { destruct S5 as (C5 & A5 & L5 & K5). split; auto. split; auto. split; [intros Lx; apply L5; auto; exists tt; reflexivity|]. split; auto. }
           eapply (Hfin s5 i); eauto.
         * injection H as <- <-. destruct (copy_regular_spec c f0 dr dcs s4 s5 _ cs2 d2 x src ino T4 Hab Lok4 E5) as (S5 & Pa5 & _).
+          split; [|eapply (copy_regular_reads c f0 dr dcs R SPN HC); [apply T4|apply Hspn; exact Hkl|exact E5|exact Rk4]].
           apply Hfrom4; [exact S5|intros [a Ha]; discriminate].
       + (* symlink *)
         assert (Hkl : kind_is_link fi = true) by (unfold kind_is_link; rewrite Ek; reflexivity).
         rewrite bind_run, sys_run in H. cbn [fst snd] in H. rewrite sys_readlink_fs in H.
         destruct (snd (sys_readlink c (s_fs s4) src)) as [|e|i0 n0|tgt|l0|i0];
-          try (unfold fail in H; injection H as <- <-; apply Hfrom4; [apply stays_stays_ok, stays_same; auto; apply T4|intros [a Ha]; discriminate]).
+          try (unfold fail in H; injection H as <- <-; split; [|exact Rk4]; apply Hfrom4; [apply stays_stays_ok, stays_same; auto; apply T4|intros [a Ha]; discriminate]).
         set (s5 := {| s_fs := s_fs s4; s_links := s_links s4; s_parents := s_parents s4; s_reads := s_reads s4 |}) in H.
         assert (T5 : Tgt (s_fs s5) cs2 d2 x) by exact T4.
         rewrite bind_run, sys_run in H. cbn [fst snd] in H.
@@ -256,7 +312,7 @@ Section Rec2.
         { destruct (stays_grows c f0 dr dcs d2 s5 f6 C6 A6 G6 K6) as (X1 & X2 & X3 & X4 & X5). split; auto. }
         rewrite bind_run, expect_ok_run in H.
         destruct P6 as [[e ->]|[-> Hcr]].
-        * injection H as <- <-. apply Hfrom4; [apply stays_stays_ok; exact S6|intros [a Ha]; discriminate].
+        * injection H as <- <-. split; [|exact Rk4]. apply Hfrom4; [apply stays_stays_ok; exact S6|intros [a Ha]; discriminate].
         * eapply (Hfin (mk s5 f6) (f_next (s_fs s5))); eauto.
           -- split; [apply Hcr|right; apply Hcr].
           -- intros E. congruence.
@@ -265,13 +321,16 @@ Section Rec2.
         rewrite bind_run in H.
         destruct (copy_device c (tpath cs2 x) fi s4) as [s5 [[]|e]] eqn:E5.
         * destruct (copy_device_spec c f0 dr dcs s4 s5 _ cs2 d2 x fi T4 E5) as (S5 & _ & P5).
+          assert (Rk5 : rok s5) by (eapply rok_nr; [apply NR_copy_device|exact E5|exact Rk4]).
           destruct (P5 eq_refl) as (i & Hn & _ & Hl).
           eapply (Hfin s5 i); eauto.
         * injection H as <- <-. destruct (copy_device_spec c f0 dr dcs s4 s5 _ cs2 d2 x fi T4 E5) as (S5 & _).
+          split; [|eapply rok_nr; [apply NR_copy_device|exact E5|exact Rk4]].
           apply Hfrom4; [apply stays_stays_ok; exact S5|intros [a Ha]; discriminate].
     - (* not selected *)
       destruct (i_kind fi) as [pp es|data|t|typ rdev] eqn:Ek;
-        try (cbn [ret] in H; injection H as <- <-; split; [apply stays_stays_ok; exact S02|intros _; left; exact P2]).
+        try (cbn [ret] in H; injection H as <- <-; split; [|exact Rk2]; split; [apply stays_stays_ok; exact S02|intros _; left; exact P2]).
+      assert (Hsn : SPN src) by (apply Hspn; unfold kind_is_link; rewrite Ek; reflexivity).
       rewrite bind_run, push_parent_run in H.
       set (Pst := s_parents s2 ++ [(src, target, false)]) in H.
       set (s3 := setp s2 Pst) in H.
@@ -283,43 +342,46 @@ Section Rec2.
       { intros s9 r9 S9 P9. split; [eapply stays_ok_pre; eauto|]. intros Hr.
         destruct (P9 Hr) as [Eq|[Eq Hch]]; [left|right]; rewrite Eq, P2; auto. }
       destruct (snd (sys_readdir c (s_fs s3) src)) as [|e|i0 n0|b0|names|i0] eqn:Er;
-        try (unfold fail in H; injection H as <- <-; apply Hout; [apply stays_ok_setp; exact C2|intros [a Ha]; discriminate]).
+        try (unfold fail in H; injection H as <- <-; split; [|exact Rk2]; apply Hout; [apply stays_ok_setp; exact C2|intros [a Ha]; discriminate]).
       pose proof (readdir_names c f0 dr (s_fs s3) src names (cx_inv _ _ _ _ _ C2) Er) as Hnames.
+      pose proof (readdir_children (s_fs s3) src names C2 Hsn Er) as Hkids.
       rewrite bind_run in H. unfold get_fs at 1 in H. rewrite bind_run in H.
-      assert (Hlog : forall ff sX, exists sY, (match resolve_ino c ff src true with inl di => log_read di | inr _ => ret tt end) sX = (sY, inl tt)
-                            /\ s_fs sY = s_fs sX /\ s_links sY = s_links sX /\ s_parents sY = s_parents sX).
-      { intros ff sX. destruct (resolve_ino c ff src true); [rewrite log_read_run|cbn [ret]];
-          eexists; (split; [reflexivity|repeat split; reflexivity]). }
       match type of H with context [(match resolve_ino c ?ff src true with inl di => log_read di | inr _ => ret tt end) ?sX] =>
-        destruct (Hlog ff sX) as (s7 & E7 & F7 & EL7 & Pa7); rewrite E7 in H end.
+        destruct (log_dir_reads ff src sX C2 Hsn) as (s7 & E7 & F7 & EL7 & Pa7 & Rd7); rewrite E7 in H end.
       cbn [s_fs s_links s_parents s3 setp] in F7, EL7, Pa7.
+      assert (Rk7 : rok s7) by (apply Rd7; exact Rk2).
+      assert (HpkP : pok Pst).
+      { unfold Pst. apply pok_app. split; [exact Hpk2|]. constructor; [exact Hsn|constructor]. }
+      set (PK := fun n : bytes => okn n /\ SP (join2 src n)).
       rewrite bind_run in H.
       (* the children: the stack is as pushed, or a selected descendant has had every parent made *)
       set (I := fun s0 : cst => Ctx (s_fs s0) /\ chain (s_fs s0) dr cs d /\
                  (s_parents s0 = Pst \/ (s_parents s0 = allc Pst /\ exists d', chain (s_fs s0) dr (cs ++ pend ++ [x]) d'))).
       assert (HI : forall s0, I s0 -> Ctx (s_fs s0) /\ is_dir (s_fs s0) d = true).
       { intros s0 (C0 & Hc0 & _). split; auto. eapply chain_end_dir; eauto. }
-      assert (Hg : forall n sa sb rb, okn n -> I sa -> lok sa ->
+      assert (Hg : forall n sa sb rb, PK n -> I sa -> lok sa -> rok sa ->
                 copy_rec k c o sl (join2 src n) (join2 comps n) (join2 target n) true (snd ri) (snd re) sa = (sb, rb) ->
-                stays_ok d sa sb rb /\ (ok_res rb -> I sb)).
-      { intros n sa sb rb Hn (Ca & Hca & Pa) La Ha. rewrite (Hj n Hn) in Ha.
+                stays_ok d sa sb rb /\ (ok_res rb -> I sb) /\ rok sb).
+      { intros n sa sb rb [Hn Hspk] (Ca & Hca & Pa) La Rka Ha. rewrite (Hj n Hn) in Ha.
         destruct Pa as [Pa|[Pa (d' & Hd')]].
         - (* still pending *)
           replace (dcs ++ cs ++ pend ++ [x] ++ [n]) with (dcs ++ cs ++ (pend ++ [x]) ++ [n]) in Ha by (rewrite <- !app_assoc; reflexivity).
-          destruct (IH o sl (join2 src n) (join2 comps n) cs d (pend ++ [x]) n true (snd ri) (snd re) sa sb rb Ca Hca) as (Sb & Pb); auto;
+          destruct (IH o sl (join2 src n) (join2 comps n) cs d (pend ++ [x]) n true (snd ri) (snd re) sa sb rb Ca Hca) as ((Sb & Pb) & Rkb); auto;
             try (apply Forall_app; split; auto); try apply Hn.
           { rewrite Pa. exact HuP. }
-          split; auto. intros Hr. destruct Sb as (Cb & Ab & _).
+          { rewrite Pa. exact HpkP. }
+          split; auto. split; [|exact Rkb]. intros Hr. destruct Sb as (Cb & Ab & _).
           split; auto. split; [apply (Ab dr cs d []); auto; constructor; eapply chain_end_dir; eauto|].
           destruct (Pb Hr) as [Eq|[Eq Hch]]; [left|right]; rewrite Eq, Pa; auto.
         - (* all parents exist *)
           replace (dcs ++ cs ++ pend ++ [x] ++ [n]) with (dcs ++ (cs ++ pend ++ [x]) ++ [] ++ [n]) in Ha by (rewrite <- !app_assoc; reflexivity).
           assert (Hq' : chain (s_fs sa) d (pend ++ [x]) d').
           { destruct (chain_split (s_fs sa) cs dr (pend ++ [x]) d' Hd') as (m & P & Q). rewrite (chain_fun _ _ _ _ P _ Hca) in Q. exact Q. }
-          destruct (IH o sl (join2 src n) (join2 comps n) (cs ++ pend ++ [x]) d' [] n true (snd ri) (snd re) sa sb rb Ca Hd') as (Sb & Pb); auto;
+          destruct (IH o sl (join2 src n) (join2 comps n) (cs ++ pend ++ [x]) d' [] n true (snd ri) (snd re) sa sb rb Ca Hd') as ((Sb & Pb) & Rkb); auto;
             try (repeat (apply Forall_app; split; auto)); try apply Hn.
           { rewrite Pa. apply uncopied_allc. }
-          split; [eapply stays_ok_below; eauto|]. intros Hr. destruct Sb as (Cb & Ab & _).
+          { rewrite Pa. apply pok_allc. exact HpkP. }
+          split; [eapply stays_ok_below; eauto|]. split; [|exact Rkb]. intros Hr. destruct Sb as (Cb & Ab & _).
           split; auto. split; [apply (Ab dr cs d (pend ++ [x])); auto|].
           right. split.
           + destruct (Pb Hr) as [Eq|[Eq _]]; rewrite Eq, Pa; auto. apply allc_idem.
@@ -329,15 +391,19 @@ Section Rec2.
       assert (S27 : stays_ok d s2 s7 (@inl unit N tt)).
       { split; [rewrite F7; exact C2|]. split; [rewrite F7; apply above_refl|]. split; [intros _ _; exact L7|rewrite F7; apply keeps_new_refl]. }
       assert (Hd2 : is_dir (s_fs s2) d = true) by (rewrite F2; exact Hd).
+      assert (HPK : Forall PK (sorted_names names)).
+      { apply sorted_names_forall. apply Forall_forall. intros n Hn. rewrite Forall_forall in Hnames, Hkids. split; auto. }
       destruct (each_m (fun n => copy_rec k c o sl (join2 src n) (join2 comps n) (join2 target n) true (snd ri) (snd re)) (sorted_names names) s7)
         as [s8 [[]|e]] eqn:E8.
       2:{ injection H as <- <-.
-          destruct (each_m_inv c f0 dr dcs I _ d HI Hg _ (sorted_names_forall _ _ Hnames) s7 s8 _ I7 L7 E8) as (S8 & _).
+          destruct (each_m_inv_r c f0 dr dcs R PK I _ d HI Hg _ HPK s7 s8 _ I7 L7 Rk7 E8) as (S8 & _ & Rk8).
+          split; [|exact Rk8].
           apply Hout; [|intros [a Ha]; discriminate].
           eapply (stays_ok_seq c f0 dr dcs d s2 s7 s8 tt); [exact Hd2|exact S27|exact S8]. }
-      destruct (each_m_inv c f0 dr dcs I _ d HI Hg _ (sorted_names_forall _ _ Hnames) s7 s8 _ I7 L7 E8) as (S8 & I8).
+      destruct (each_m_inv_r c f0 dr dcs R PK I _ d HI Hg _ HPK s7 s8 _ I7 L7 Rk7 E8) as (S8 & I8 & Rk8).
       destruct (I8 (ex_intro _ tt eq_refl)) as (C8 & Hc8 & Pa8).
       rewrite pop_parent_run in H. injection H as <- <-.
+      split; [|exact Rk8].
       apply Hout.
       + eapply (stays_ok_seq c f0 dr dcs d s2 s7 _ tt); [exact Hd2|exact S27|].
         eapply (stays_ok_seq c f0 dr dcs d s7 s8 _ tt); [rewrite F7; exact Hd2|exact S8|]. apply stays_ok_setp. exact C8.
@@ -345,5 +411,20 @@ Section Rec2.
         * left. unfold Pst. rewrite removelast_last. reflexivity.
         * right. split; [unfold Pst; rewrite removelast_allc, removelast_last; reflexivity|].
           rewrite app_assoc in Hd'. destruct (chain_split (s_fs s8) (cs ++ pend) dr [x] d' Hd') as (m & P & _). eauto.
+  Qed.
+  End Reads.
+
+  Lemma copy_rec_spec fuel : forall o sl src comps cs d pend x ow pinc pexc s s' r,
+    Ctx (s_fs s) -> chain (s_fs s) dr cs d ->
+    Forall nm cs -> Forall nonul cs -> Forall nm pend -> Forall nonul pend -> nm x -> nonul x ->
+    uncopied (s_parents s) = pend_paths cs pend -> lok s ->
+    copy_rec fuel c o sl src comps (render (dcs ++ cs ++ pend ++ [x])) ow pinc pexc s = (s', r) ->
+    stays_ok d s s' r /\ (ok_res r -> stack_post cs pend s s').
+  Proof.
+    intros o sl src comps cs d pend x ow pinc pexc s s' r C Hc Hcs Hcn Hp Hpn Hx Hxn Hu L H.
+    pose proof (copy_rec_spec_r (fun _ => True) (fun _ => True) (fun _ => True)) as G.
+    eapply G; eauto; try (intros; exact I).
+    - apply Forall_forall. intros; exact I.
+    - intros i _. exact I.
   Qed.
 End Rec2.
